@@ -540,6 +540,25 @@ impl Diff {
                 // the data bus is sampled is not judged)
                 let acks = |v: &[Evt]| -> Vec<u8> { v.iter().filter_map(|e| if let Evt::IntAck { data } = e { Some(*data) } else { None }).collect() };
                 let cyc = |v: &[Evt]| -> Vec<Evt> { v.iter().copied().filter(|e| e.is_cycle()).collect() };
+                // The acknowledge is an M1-type cycle with PC on the address bus: an implementation
+                // that presents its acknowledge T-states as addressed delay T-states must give them
+                // the address execution would have continued at — the word that is pushed (HALT+1
+                // when halted). Unaddressed acknowledge T-states (wait_internal) are accepted.
+                if self.proj == Proj::Timing {
+                    let pushed: Vec<u8> = events.iter().filter_map(|e| if let Evt::Mem { write: true, data, .. } = e { Some(*data) } else { None }).collect();
+                    if pushed.len() == 2 {
+                        let ret = u16::from_be_bytes([pushed[0], pushed[1]]);
+                        if let Some(Evt::Delay { addr }) = got.iter().find(|e| matches!(e, Evt::Delay { addr } if *addr != ret)) {
+                            return Err(format!(
+                                "{}: interrupt acknowledge T-state carries address {:#06x}; the acknowledge cycle presents the return address {:#06x} (the word pushed); implementation events {:?}",
+                                ctx(self),
+                                addr,
+                                ret,
+                                got
+                            ));
+                        }
+                    }
+                }
                 let (gc, wc) = (cyc(&got), cyc(&want_cycles));
                 if gc.len() != wc.len() || !wc.iter().zip(gc.iter()).all(|(r, i)| self.evt_eq(r, i)) || acks(&got) != acks(&want_cycles) {
                     return Err(format!(
